@@ -268,6 +268,14 @@ DIRECTED = [
 ]
 
 
+# operator%(double): remainders above 2^53 that fall on / next to a rounding tie of the int64_t -> double conversion, and
+# divisors above 2^63 whose remainder does not fit the intermediate int64_t
+for _d in (2**63, -2**63, 2**64 - 2**11, 2**63 + 2**11, -(2**64 - 2**11)):
+    for _n in (2**53 + 1, 2**53 + 3, 2**54 + 2, 2**54 + 6, 2**54 + 1, 2**62 + 2**9, 2**62 + 3 * 2**9, 2**62 + 2**9 + 1, 2**63 - 1,
+               2**63 - 513, 2**63 + 1025, 2**64 - 2**11 - 1, 2**64 - 2**12 + 1, 2**64 + 2**53 + 1):
+        DIRECTED.append(("op%.d", _n, _d)); DIRECTED.append(("op%.d", -_n, _d))
+        DIRECTED.append(("op%.dx", _n, 16 * _d)); DIRECTED.append(("op%.ul", -_n, abs(_d)))
+
 def merged_known():
     """known_findings.json is the coordinator's file; until frag/C02.findings.json is merged into it the
     entries of the fragment are honoured as well (same matching rule: site + class)."""
